@@ -47,7 +47,23 @@ VALS = {
     "bytes:": b"", "bytes:x": b"x",
     "fset:": frozenset(), "fset:1": frozenset([1]),
 }
-KEYS = list(VALS)
+
+
+class StateObj:
+    """stands for one of the machine's own `State` objects used where a state *value* belongs
+    (`sm.current_state_value = sm.s0`, `model.state = M.s1`): resolved when the operation is performed"""
+
+    def __init__(self, idx):
+        self.idx = idx
+
+    def __repr__(self):
+        return f"M.s{self.idx}"
+
+
+KEYS = list(VALS)                       # what a state value / start value / initial content may be
+VALS["sobj:0"] = StateObj(0)
+VALS["sobj:1"] = StateObj(1)
+WRITE_KEYS = list(VALS)                 # … and what a history may try to write
 FALSY_KEYS = [k for k in KEYS if not VALS[k]]
 KINDS = sorted({k.split(":")[0] for k in KEYS})
 
@@ -66,6 +82,9 @@ def key_of(v):
     """python value -> pool key, strict on type and equality (so `False` is never taken for `0`)"""
     if v is None:
         return None
+    sid = getattr(v, "id", None)
+    if type(v).__name__ in ("State", "InstanceState") and isinstance(sid, str) and sid[:1] == "s" and sid[1:].isdigit():
+        return f"sobj:{sid[1:]}"
     for k, pv in VALS.items():
         if type(pv) is type(v) and pv == v and repr(pv) == repr(v):
             return k
@@ -254,10 +273,12 @@ def gen_scenario(rng: random.Random, name: str, n_ops=(3, 10)) -> SScn:
     if s.shape in MIXINS:           # MachineMixin passes only the model and the field name
         s.allow = False
     # other values that may be written / used as start value: must not collide with the machine's
-    others_ok = [k for k in KEYS if k not in s.values and compatible(s.values + [k])]
+    others_ok = [k for k in WRITE_KEYS if k not in s.values and compatible(s.values + [k])]
 
-    def invalid():
-        return rng.choice(others_ok)
+    def invalid(objects=False):
+        # (a State object where a value belongs: only as a written value, not as start value / initial content)
+        return rng.choice([k for k in others_ok
+                           if not k.startswith("sobj:") or (objects and int(k[5:]) < len(s.values))])
 
     def valid():
         # bias towards falsy declared values
@@ -278,7 +299,7 @@ def gen_scenario(rng: random.Random, name: str, n_ops=(3, 10)) -> SScn:
             ev = rng.choice(evs) if rng.random() < 0.9 else len(EVENTS) - 1
             s.ops.append(["send", ev])
         elif r < 0.52:
-            s.ops.append(["wv", valid() if rng.random() < 0.7 else (invalid() if rng.random() < 0.8 else None)])
+            s.ops.append(["wv", valid() if rng.random() < 0.7 else (invalid(True) if rng.random() < 0.8 else None)])
         elif r < 0.64:
             s.ops.append(["ws", rng.randrange(n)])
         elif r < 0.86:
@@ -286,7 +307,7 @@ def gen_scenario(rng: random.Random, name: str, n_ops=(3, 10)) -> SScn:
             if q < 0.65:
                 s.ops.append(["raw", valid()])
             elif q < 0.85:
-                s.ops.append(["raw", invalid()])
+                s.ops.append(["raw", invalid(True)])
             elif q < 0.93 or s.shape not in ("plain", "noattr", "listsub", "len0", "boolfalse", "dictsub"):
                 s.ops.append(["raw", None])
             else:
